@@ -34,7 +34,58 @@ def section(md, letter):
     return '\n'.join(out)[:4000]
 
 
+def import_refactor(prop, name):
+    """seedtool.py refactor C05 R1: patch applies, 35 tests pass with it,
+    the agent's equivalence script exits 0 with it; kept in /verif/refactors"""
+    wt = '/tmp/wt-%s' % prop
+    patch = os.path.join(wt, 'patch%s.diff' % name)
+    equiv = os.path.join(wt, 'equiv%s.py' % name)
+    rc, out = sh('git status --porcelain --untracked-files=no', wt)
+    if out.strip():
+        print('worktree not clean:', out)
+        return 2
+    rc, out = sh(['git', 'apply', os.path.basename(patch)], wt)
+    if rc != 0:
+        print('patch does not apply:', out)
+        return 2
+    try:
+        rct, outt = sh([PY, '-m', 'pytest', '-q', '-p', 'no:cacheprovider'],
+                       wt)
+        rce, oute = (0, 'no equivalence script')
+        if os.path.exists(equiv):
+            rce, oute = sh([PY, os.path.basename(equiv)], wt, timeout=1800)
+        rc, diffstat = sh('git diff --stat', wt)
+    finally:
+        sh('git checkout -- .', wt)
+    tail = outt.strip().split('\n')[-1]
+    print('patched: pytest -> exit %d (%s); equiv -> exit %d' % (rct, tail,
+                                                                rce))
+    if rct != 0:
+        print('NOT KEPT (tests fail)')
+        return 1
+    sid = '%s%s' % (prop, name)
+    dst = os.path.join(VERIF, 'refactors', sid)
+    os.makedirs(dst, exist_ok=True)
+    shutil.copy(patch, os.path.join(dst, 'patch.diff'))
+    md = ''
+    if os.path.exists(os.path.join(wt, 'REFACTOR.md')):
+        md = open(os.path.join(wt, 'REFACTOR.md')).read()
+    with open(os.path.join(dst, 'meta.json'), 'w') as f:
+        json.dump({'id': sid, 'property': prop,
+                   'author': 'independent sub-agent asked for a '
+                             'behaviour-preserving refactoring',
+                   'files_changed': [l.split('|')[0].strip() for l in
+                                     diffstat.split('\n') if '|' in l],
+                   'description': md[:6000],
+                   'tests_with_patch': tail,
+                   'agent_equivalence_script_exit': rce}, f, indent=1)
+    print('kept as', dst)
+    return 0
+
+
 def main():
+    if sys.argv[1] == 'refactor':
+        return import_refactor(sys.argv[2], sys.argv[3])
     prop, letter = sys.argv[1], sys.argv[2]
     wt = '/tmp/wt-%s' % prop
     patch = os.path.join(wt, 'patch%s.diff' % letter)
